@@ -127,6 +127,7 @@ func (s *vfSession) addRemoteStep(x *vfSide, c Candidate, desc string) {
 		}
 		p.RType, q.RType = 0, 0
 		p.RPrio, q.RPrio = 0, 0
+		p.PrioOverride, q.PrioOverride = false, false // how the priority is kept is not part of the contract; Prio itself is compared
 		if p != q {
 			s.viol("C06", "supersession-pair-changed", fmt.Sprintf("%s: pair %s|%s changed across supersession: before %+v after %+v", x.name, p.Local, p.Remote, p, q), nil)
 		}
@@ -215,6 +216,7 @@ func vfC06Run(e *vfEnv, r *vfResult, idx int) { //nolint:cyclop
 	variant := []string{"plain", "filter", "restart", "restart", "failed", "prflx-first"}[s.rng.IntN(6)]
 	s.desc["topology"], s.desc["variant"] = t, variant
 	ca, cb := vfSideCfg{MaxBinding: 1000, TieBreaker: 11}, vfSideCfg{MaxBinding: 1000, TieBreaker: 22}
+	ca.TCPPassive, cb.TCPPassive = s.rng.IntN(3) == 0, s.rng.IntN(3) == 0 // ICE-TCP passive local candidates (simulated TCP mux)
 	if variant == "filter" {
 		// each side rejects a random subset of the other's addresses (as seen on the wire)
 		mk := func(ips []string) func(netip.Addr) bool {
@@ -257,6 +259,20 @@ func vfC06Run(e *vfEnv, r *vfResult, idx int) { //nolint:cyclop
 		r.inconclusive(1)
 
 		return
+	}
+	// ICE-TCP candidates of the peer: an active one (must never be listed) and a passive one (listed, paired only with
+	// TCP local candidates)
+	for i, x := range s.sides() {
+		if s.rng.IntN(2) == 0 {
+			ip := fmt.Sprintf("10.%d.201.1", 60+i)
+			if tc, err := NewCandidateHost(&CandidateHostConfig{Network: "tcp", Address: ip, Port: 9, Component: 1, TCPType: TCPTypeActive}); err == nil {
+				pending = append(pending, vfPendingSignal{to: x, cand: tc, desc: fmt.Sprintf("%s told TCP active candidate %s:9", x.name, ip)})
+			}
+			if tc, err := NewCandidateHost(&CandidateHostConfig{Network: "tcp", Address: ip, Port: 4000 + i, Component: 1, TCPType: TCPTypePassive}); err == nil {
+				pending = append(pending, vfPendingSignal{to: x, cand: tc, desc: fmt.Sprintf("%s told TCP passive candidate %s", x.name, ip)})
+			}
+			s.r.count("c06_sessions_with_tcp_remote_candidates", 1)
+		}
 	}
 	if variant == "prflx-first" {
 		// B is told everything now; what A is to be told is held back
